@@ -37,8 +37,13 @@ def expand_to_target(
                 # it will not add any new information, we can thus also keep it unexpanded.
                 continue
 
-            # Check if the size limit has been exceeded already.
-            if (size_limit is not None) and (len(sd) >= size_limit):
+            # Check if the size limit has been exceeded already. (Visiting a node
+            # that is already expanded does not grow the diagram.)
+            if (
+                (size_limit is not None)
+                and (len(sd) >= size_limit)
+                and not sd.node_data(node)["expanded"]
+            ):
                 # Size limit reached.
                 return False
 
